@@ -877,15 +877,27 @@ pub fn check_failure_reporting(n: usize, data: &[f64], tol: Option<f64>, acc: &m
                             let mut col = 0.0f64;
                             for i in 0..n {
                                 let mut sabs = if i == j { 1.0 } else { 0.0 };
+                                // products with an exact zero factor are exact zeros and adding them is exact: only the k
+                                // non-zero products of the dot product round (k multiplications, k-1 additions, 1 subtraction)
+                                let mut nz = 0usize;
                                 for k in 0..n {
-                                    sabs += (d.inverse[i * n + k] * data[k * n + j]).abs();
+                                    let p = (d.inverse[i * n + k] * data[k * n + j]).abs();
+                                    if p != 0.0 {
+                                        nz += 1;
+                                    }
+                                    sabs += p;
                                 }
-                                let e = (n as f64 + 2.0) * u * sabs;
+                                let e = (nz as f64 + 2.0) * u * sabs;
                                 col += e * e;
                             }
                             bound += col.sqrt();
                         }
                         let slack = 2.0 * bound + 8.0 * u * dist;
+                        // how decisive the family is: exact distance in units of the slack (> 1: a wrong verdict is visible)
+                        acc.max(&format!("c16_distance_over_slack[{class}]"), dist / slack);
+                        if std::env::var("C16_DEBUG").is_ok() && dist / slack > 0.5 {
+                            eprintln!("C16_DEBUG {class} n={n} tol={t:e} dist={dist:e} slack={slack:e} data={data:?}");
+                        }
                         let near = dist <= t + slack || (dist - t).abs() <= 1e-12 * t.abs().max(dist);
                         if dist > t && !near {
                             acc.violate(
@@ -962,6 +974,32 @@ pub fn run_c16a(ctx: &Ctx, acc_out: &mut Acc) {
             // the only place where a test that looks at the wrong residual can be told apart from rounding noise
             // (exact distance above the rigorous evaluation bound)
             let mut ill: Vec<(usize, Vec<f64>)> = vec![];
+            let mut fam: Vec<(usize, Vec<f64>, &'static str)> = vec![];
+            // a weakly coupled, nearly degenerate loop (border b ~ beta, Schur complement s far below b^T A^-1 b): the inverse
+            // loses its accuracy in that loop's row only; the loop sits last, first or in the middle; dims 3..8
+            for n in 3..=8usize {
+                for (beta, sc) in [(1e-9, 1e-24), (1e-6, 1e-18), (1e-4, 1e-13), (1e-2, 1e-9)] {
+                    for pos in [n - 1, 0, n / 2] {
+                        let mut d = vec![0.0; n * n];
+                        let mut schur = 0.0;
+                        let mut k = 0;
+                        for i in 0..n {
+                            if i == pos {
+                                continue;
+                            }
+                            let a = 1.0 + 0.1 * k as f64;
+                            let b = beta * (1.0 + 0.37 * k as f64).sqrt();
+                            d[i * n + i] = a;
+                            d[i * n + pos] = b;
+                            d[pos * n + i] = b;
+                            schur += b * b / a;
+                            k += 1;
+                        }
+                        d[pos * n + pos] = schur + sc;
+                        fam.push((n, d, "bordered"));
+                    }
+                }
+            }
             for n in 5..=8usize {
                 let mut h = vec![0.0; n * n];
                 for i in 0..n {
@@ -990,10 +1028,110 @@ pub fn run_c16a(ctx: &Ctx, acc_out: &mut Acc) {
                 ill.push((3, vec![a, 3.0, 1.0, 3.0, 1.0, 2e-3, 1.0, 2e-3, b]));
                 ill.push((3, vec![b, 2e-3, 1.0, 2e-3, 1.0, 3.0, 1.0, 3.0, a]));
             }
+            // beyond the 6x6 inline capacity: a well-conditioned tridiagonal block coupled weakly to an ill-conditioned block
+            // that sits in the LAST rows (the error of the inverse lives in rows 7, 8) or, as a control, in the first rows
+            for n in 6..=8usize {
+                for c in [1e6, 1e8, 1e10] {
+                    for (at_end, blk) in [(true, 2usize), (false, 2), (true, 3)] {
+                        let mut d = vec![0.0; n * n];
+                        for i in 0..n {
+                            d[i * n + i] = 2.0;
+                            if i + 1 < n {
+                                d[i * n + i + 1] = -0.5;
+                                d[(i + 1) * n + i] = -0.5;
+                            }
+                        }
+                        let o = if at_end { n - blk } else { 0 };
+                        for i in 0..blk {
+                            for j in 0..blk {
+                                d[(o + i) * n + o + j] = c + if i == j { 1.0 + 0.25 * i as f64 } else { 0.0 };
+                            }
+                        }
+                        if QMat::from_f64(n, &d).map(|m| m.is_spd()).unwrap_or(false) {
+                            ill.push((n, d));
+                        }
+                    }
+                }
+            }
+            // ill-conditioned although the Cholesky pivots are balanced: a coupling far above the leading diagonal entry
+            // ([[a, c], [c, c^2/a + delta]], also embedded behind / in front of a unit block)
+            for a in [1.3, 0.7] {
+                for c in [1e3, 1.1e6, 3.3e7] {
+                    for delta in [0.7, 1e-2] {
+                        let m22 = c * c / a + delta;
+                        fam.push((2, vec![a, c, c, m22], "balanced-pivots"));
+                        fam.push((3, vec![1.0, 0.0, 0.0, 0.0, a, c, 0.0, c, m22], "balanced-pivots"));
+                        fam.push((3, vec![a, c, 0.0, c, m22, 0.25, 0.0, 0.25, 1.0], "balanced-pivots"));
+                    }
+                }
+            }
+            // graded 2x2 blocks (large residual, small evaluation bound) embedded behind / in front of a unit block: the error of
+            // the inverse sits in the last (first) two rows of a 6x6 ... 8x8 matrix
+            for n in 6..=8usize {
+                for (a, b) in [(1e8, 1e-6), (1e6, 1e-8), (1e10, 1e-4), (1e4, 1e-12)] {
+                    for at_end in [true, false] {
+                        for swap in [false, true] {
+                            let mut d = vec![0.0; n * n];
+                            for i in 0..n {
+                                d[i * n + i] = 1.0 + 0.25 * i as f64;
+                            }
+                            let o = if at_end { n - 2 } else { 0 };
+                            let (p, q) = if swap { (b, a) } else { (a, b) };
+                            d[o * n + o] = p;
+                            d[o * n + o + 1] = 3.0;
+                            d[(o + 1) * n + o] = 3.0;
+                            d[(o + 1) * n + o + 1] = q;
+                            fam.push((n, d, "graded-block"));
+                        }
+                    }
+                }
+            }
+            for (n, d, class) in fam {
+                acc.hist("class", class);
+                for e in 3..=16 {
+                    check_failure_reporting(n, &d, Some(10f64.powi(-e)), acc, class);
+                }
+                check_failure_reporting(n, &d, Some(f64::INFINITY), acc, class);
+            }
             for (n, d) in ill {
                 acc.hist("class", "ill-conditioned-definite");
+                check_failure_reporting(n, &d, Some(f64::INFINITY), acc, "ill-conditioned");
                 for e in 3..=16 {
                     check_failure_reporting(n, &d, Some(10f64.powi(-e)), acc, "ill-conditioned");
+                }
+            }
+        }
+        if part == 2 {
+            // POSITION alphabet up to 8x8 (beyond the 6x6 inline capacity): a unit matrix with, at every diagonal position, an
+            // indefinite 2x2 block (NaN pivot), a semi-definite one (zero pivot) or a 1e-310 entry (the inverse overflows)
+            for n in 2..=8usize {
+                for pos in 0..n {
+                    let unit = |n: usize| {
+                        let mut d = vec![0.0; n * n];
+                        for i in 0..n {
+                            d[i * n + i] = 1.0 + 0.125 * i as f64;
+                        }
+                        d
+                    };
+                    let mut tiny = unit(n);
+                    tiny[pos * n + pos] = 1e-310;
+                    let mut cases = vec![tiny];
+                    if pos + 1 < n {
+                        for blk in [[1.0, 2.0, 2.0, 1.0], [1.0, 1.0, 1.0, 1.0], [2.0, 1.0, 1.0, 0.5 + 1e-17]] {
+                            let mut d = unit(n);
+                            d[pos * n + pos] = blk[0];
+                            d[pos * n + pos + 1] = blk[1];
+                            d[(pos + 1) * n + pos] = blk[2];
+                            d[(pos + 1) * n + pos + 1] = blk[3];
+                            cases.push(d);
+                        }
+                    }
+                    for d in cases {
+                        acc.hist("class", "embedded-nondefinite");
+                        for tol in TOLS {
+                            check_failure_reporting(n, &d, tol, acc, "embedded-nondefinite");
+                        }
+                    }
                 }
             }
         }
